@@ -5,6 +5,7 @@ import (
 	"crypto/sha256"
 	"fmt"
 	"reflect"
+	rtdebug "runtime/debug"
 	"strings"
 	"sync"
 
@@ -122,20 +123,76 @@ func init() {
 		// (ii-b) other instances FAILED earlier in the process: every workload is run against sinks that fail at
 		// their 2nd, 3rd, 5th, 8th and 12th write (persistently, transiently, after taking the bytes); error paths of one
 		// instance must not disturb what later instances produce
-		for _, k := range []int{2, 3, 5, 8, 12} {
+		withFailures := len(a) > 3 && a[3] == "fail"
+		if withFailures {
+			// pooled objects are dropped by the garbage collector: keep it out of the two failure phases so that what a
+			// failed instance left in a pool is still there when the next instance asks for it
+			old := rtdebug.SetGCPercent(-1)
+			defer rtdebug.SetGCPercent(old)
+		}
+		for _, k := range []int{2, 5, 12} {
+			if !withFailures {
+				break
+			}
 			for _, mode := range []byte{'z', 'Z', 'f'} {
 				for i := range wls {
 					func() {
 						defer func() { recover() }()
 						wls[i].runWith(k, mode)
 					}()
-				}
-			}
-			if k == 3 || k == 12 {
-				for i := range wls {
-					if d := check(i, "after-failed-writers"); d != "" {
+					// at once (pooled state does not survive a garbage collection): a gzip workload and the next one
+					j := (i + 1) % len(wls)
+					for t := 0; t < len(wls) && wls[j].codec != 2; t++ {
+						j = (j + 1) % len(wls)
+					}
+					if d := check(j, "after-failed-writer"); d != "" {
 						return d
 					}
+					if d := check((i+1)%len(wls), "after-failed-writer"); d != "" {
+						return d
+					}
+				}
+			}
+		}
+		// (ii-c) other READER instances failed earlier in the process: every baseline file is damaged in the middle of its
+		// data region (three places) and in its first page, and read by a fresh reader (whatever happens to that reader)
+		for i := range wls {
+			f := base[i].file
+			if len(f) < 40 || !withFailures {
+				continue
+			}
+			places := []int{len(f) / 3, len(f) / 2}
+			// the container magic of compressed pages (gzip: 1f 8b 08): the first, a middle and the last one
+			var magics []int
+			for j := 4; j+3 < len(f)-12; j++ {
+				if f[j] == 0x1f && f[j+1] == 0x8b && f[j+2] == 0x08 {
+					magics = append(magics, j)
+				}
+			}
+			if len(magics) > 0 {
+				places = append(places, magics[0], magics[len(magics)-1])
+			}
+			for _, at := range places {
+				bad := append([]byte{}, f...)
+				for j := at; j < at+5 && j < len(bad)-12; j++ {
+					bad[j] ^= 0xA5
+				}
+				func() {
+					defer func() { recover() }()
+					rd, err := wls[i].z.NewReader(&source{data: bad})
+					if err != nil {
+						return
+					}
+					for n := 0; n < int(rd.Rows())+3 && n < 100000 && rd.Next(); n++ {
+						rd.Scan(wls[i].z.NewRec())
+					}
+				}()
+				// at once (pooled state does not survive a garbage collection): the same workload, and the next one
+				if d := check(i, "after-failed-reader"); d != "" {
+					return d
+				}
+				if d := check((i+1)%len(wls), "after-failed-reader"); d != "" {
+					return d
 				}
 			}
 		}
